@@ -960,6 +960,21 @@ func rulePosProv(p *Prog, r *Result) {
 			if f := x.Call.StaticCallee(); f != nil && f.Name() == "GetPos" {
 				return ""
 			}
+			// a package helper returning a position (`p.curPos()`: the current token's offset or -1): every return is checked
+			if f := x.Call.StaticCallee(); f != nil && p.InPkg(f) && len(f.Blocks) > 0 && f.Signature.Results().Len() == 1 {
+				nret := 0
+				for _, b := range f.Blocks {
+					if ret := retOf(b); ret != nil && len(ret.Results) == 1 {
+						nret++
+						if m := check(retVal(ret, 0), depth+1, seen); m != "" {
+							return m + " (returned by " + f.Name() + ")"
+						}
+					}
+				}
+				if nret > 0 {
+					return ""
+				}
+			}
 			return "position produced by call " + callDesc(p, x)
 		case *ssa.Parameter:
 			fn := x.Parent()
